@@ -349,7 +349,7 @@ def extra(tier, seed):
             break
     return {"violations": violations, "enumerated_lifecycle_scenarios": list(POPULATIONS),
             "enumerated_lifecycle_note": "concrete real-runtime scenarios on one OS schedule each: NOT solver-decided, "
-                                         "bound %ss, re-run once before a problem is believed" % 20}
+                                         "bound %ss, re-run once before a problem is believed" % 12}
 
 
 def replay(v):
